@@ -20,7 +20,7 @@ ORACLE = {
     "C05": "explicit complex128 DFT-matrix product incl. centre pad/crop in 1-4 dims, round trip, norm, dtype preservation, A.N(x) = x",
     "C06": "exact NUDFT vs sp.nufft: per-coordinate row error of the implementation matrix (< 3 % defaults, < 0.3 % oversamp 2), adjoint dot test 1e-6 over oversamp x width, periodicity (skipped at float window-edge ties)",
     "C07": "direct evaluation of the documented kernel sum in numpy, scipy.special.i0 for Kaiser-Bessel (2.5e-7), duplicates/wrapped contributions add",
-    "C08": "independent nested-sum reference, exact integer dot tests for both adjoints, shapes, mixed real/complex dtypes (rejected with TypeError or correct, never silently real)",
+    "C08": "independent nested-sum reference, exact integer dot tests for both adjoints, shapes, mixed real/complex dtypes (rejected with TypeError or correct, never silently real), through the functions, the four Linop classes and .H of each",
     "C09": "index loops written from the statement (pure numpy), exact equality, functions and Linops",
     "C10": "round trip, norm preservation, adjoint identity (1e-8) through sp.fwt/iwt and linop.Wavelet/.H/.H.H for every orthogonal wavelet x shapes x axes x levels x real/complex; advertised shape",
     "C11": "Fenchel-Young / normal-cone certificates composed over the nesting, objective vs perturbations, projection inequality, feasible => unchanged, idempotence, shape; deepest failing call blamed",
